@@ -347,9 +347,8 @@ class MetaFile:
         self.meta["info"]["piece length"] = self.piece_length
 
         self.meta_version = meta_version
-        parent, self.name = os.path.split(self.path)
-        if not self.name:
-            self.name = os.path.basename(parent)
+        # abspath drops trailing separators and "." / ".." segments
+        self.name = os.path.basename(os.path.abspath(self.path))
         self.meta["info"]["name"] = self.name
 
     def assemble(self):
